@@ -1,1 +1,136 @@
-(* placeholder: to be written *)
+(** Trace checker for the metastaking correspondence run: replays the operations the harness executed
+    on the real composed system (pair + LP farm + staking farm + proxy), feeding the model the
+    answers the real farms / pair gave, and compares every observation of the proxy: Ok/Err,
+    returned payments, the proxy account's real balances of every token, the attributes of every
+    dual-yield nonce, holders and supply, the net staking value registered in the staking farm.
+    It also evaluates the interface laws L1-L6 on the real answers.
+    Returns [] or [index; field; model value; implementation value] for the first difference.
+    Field codes: 1 Ok/Err, 2 outputs, 40 registered staking value, 51..56 interface law violated by a
+    real answer, 60 number of dual-yield nonces, 61..64 attribute fields,
+    1000+k / 2000+k proxy balance of LP-farm / staking-farm nonce k, 3000+t fungible token t,
+    4000 supply, 5000 holder. *)
+From MX Require Import Base.Prelude Gen.Params Model.MetaStaking.
+
+Record mobs := mkMObs {
+  o_ok : bool;
+  o_outs : list Z;
+  o_lpf : list (Z * Z);          (* proxy's real LP-farm token balances by nonce *)
+  o_sf : list (Z * Z);           (* proxy's real staking-farm token balances by nonce *)
+  o_fung : list (Z * Z);         (* proxy's real balances of the other tokens by code *)
+  o_attrs : list (Z * dattr);    (* real attributes of every dual-yield nonce created so far *)
+  o_hold : list (Z * Z);         (* real dual-yield balances: nonce*1000 + user *)
+  o_sup : list (Z * Z);          (* real outstanding amount per dual-yield nonce *)
+  o_reg : Z                      (* real change of the staking farm's farm-token supply *)
+}.
+
+Fixpoint list_eqb (a b : list Z) : bool :=
+  match a, b with
+  | [], [] => true
+  | x :: a', y :: b' => (x =? y) && list_eqb a' b'
+  | _, _ => false
+  end.
+
+Fixpoint first_diff (f : Z -> Z) (l : list (Z * Z)) : option (Z * Z * Z) :=
+  match l with
+  | [] => None
+  | (k, v) :: t => if f k =? v then first_diff f t else Some (k, f k, v)
+  end.
+
+Fixpoint attr_diff (s : st) (i : Z) (l : list (Z * dattr)) : list Z :=
+  match l with
+  | [] => []
+  | (n, a) :: t =>
+      match find_attr (s_attrs s) n with
+      | None => [i; 60; -1; n]
+      | Some m =>
+          if negb (d_lpn m =? d_lpn a) then [i; 61; d_lpn m; d_lpn a]
+          else if negb (d_lpa m =? d_lpa a) then [i; 62; d_lpa m; d_lpa a]
+          else if negb (d_sfn m =? d_sfn a) then [i; 63; d_sfn m; d_sfn a]
+          else if negb (d_sfa m =? d_sfa a) then [i; 64; d_sfa m; d_sfa a]
+          else attr_diff s i t
+      end
+  end.
+
+Definition cmp_state (i : Z) (s : st) (o : mobs) : list Z :=
+  match first_diff (lpf_bal s) (o_lpf o) with
+  | Some (k, m, v) => [i; 1000 + k; m; v]
+  | None =>
+  match first_diff (sf_bal s) (o_sf o) with
+  | Some (k, m, v) => [i; 2000 + k; m; v]
+  | None =>
+  match first_diff (fbal s) (o_fung o) with
+  | Some (k, m, v) => [i; 3000 + k; m; v]
+  | None =>
+  if negb (Z.of_nat (length (s_attrs s)) =? Z.of_nat (length (o_attrs o)))
+  then [i; 60; Z.of_nat (length (s_attrs s)); Z.of_nat (length (o_attrs o))]
+  else match attr_diff s i (o_attrs o) with
+  | _ :: _ as d => d
+  | [] =>
+  match first_diff (sup s) (o_sup o) with
+  | Some (k, m, v) => [i; 4000; m; v]
+  | None =>
+  match first_diff (fun k => aget (s_hold s) k) (o_hold o) with
+  | Some (k, m, v) => [i; 5000; m; v]
+  | None => []
+  end end end end end end.
+
+(** the interface laws on the answers of a successful real transaction: [] or [code; expected; answered] *)
+Definition law_check (s : st) (op : mop) : list Z :=
+  match op with
+  | Stake c _ (first :: adds) e =>
+      match release_all s c adds, pick_staking (es_sp e) with
+      | Ok (_, parts), Ok (v, _, _) =>
+          if negb (law_L6 (es_sp e)) then [56; 1; 0]
+          else if negb (law_L3 v parts e) then [53; v + sum_sfa parts; es_sfa e]
+          else match adds with
+               | [] => []
+               | _ => if negb (law_L2 (p_amt first) parts e) then [52; p_amt first + sum_lpa parts; es_lpa e] else []
+               end
+      | _, _ => []
+      end
+  | Claim c _ [p] e =>
+      match release s c (p_nonce p) (p_amt p), pick_staking (ec_sp e) with
+      | Ok (_, part), Ok (v, _, _) =>
+          if negb (law_L6 (ec_sp e)) then [56; 1; 0]
+          else if negb (law_L1 part e) then [51; d_lpa part; ec_lpa e]
+          else if negb (law_L4 v e) then [54; v; ec_sfa e]
+          else []
+      | _, _ => []
+      end
+  | Unstake c _ [p] _ _ e =>
+      match pick_staking (eu_rm e) with
+      | Ok (stk, _, _) =>
+          if negb (law_L6 (eu_rm e)) then [56; 1; 0]
+          else if negb (law_L5 stk e) then [55; stk; eu_uba e]
+          else []
+      | _ => []
+      end
+  | _ => []
+  end.
+
+Fixpoint check_trace (s : st) (i : Z) (tr : list (mop * mobs)) : list Z :=
+  match tr with
+  | [] => []
+  | (op, o) :: t =>
+      match step s op with
+      | Ok (s', outs, calls) =>
+          if negb (o_ok o) then [i; 1; 1; 0]
+          else if negb (env_nonneg op) then [i; 50; 1; 0]
+          else if negb (list_eqb outs (o_outs o)) then [i; 2; hd (-1) outs; hd (-1) (o_outs o)]
+          else match law_check s op with
+               | code :: rest => i :: code :: rest
+               | [] =>
+                 if negb (registered calls =? o_reg o) then [i; 40; registered calls; o_reg o]
+                 else match cmp_state i s' o with
+                      | [] => check_trace s' (i + 1) t
+                      | d => d
+                      end
+               end
+      | Err _ =>
+          if o_ok o then [i; 1; 0; 1]
+          else match cmp_state i s o with
+               | [] => check_trace s (i + 1) t
+               | d => d
+               end
+      end
+  end.
